@@ -121,6 +121,7 @@ def check(ctx, rep):
     rep.rule("R16c", "archive symlinks resolved in the in-memory index only", floor=1)
     rep.rule("R16e", "a link member whose target climbs above the archive root dangles (it is never resolved to a member)", floor=4)
     rep.rule("R16f", "archive member names are the stored bytes decoded as UTF-8/surrogateescape (cp437 round trip only without the UTF-8 flag)", floor=4)
+    rep.rule("R16g", "archive index lookup evaluated on a representative index: members found, non-members refused, whatever lookups failed before", floor=1)
     rep.rule("R16d", "inner handler = HandlerMultiplexer.getHandler(..., vfs=<archive VFS>) on the same selector", floor=1)
     rep.assume("zipfile.ZipFile methods act on the already opened archive only")
     vfs = ctx.cls("handlers.base.VFS_Real")
@@ -269,6 +270,47 @@ def check(ctx, rep):
                                 f"the same file extracted on disk is listed as {want!r}")
             rep.add("R16f", f"{S.qualname}: member name {raw!r} flag={'utf8' if flag else 'none'}", not problems, ctx.where(pc, loop), "; ".join(problems),
                     key=f"R16f|{S.qualname}|{raw!r}|{flag}")
+    # R16g  index lookup: every member of a representative index is found, every other path is refused, whatever was
+    #       looked up (in vain or not) before
+    for S in subs:
+        gi = prog.resolve_method(S, "_getcacheinode")
+        if gi is None:
+            continue
+        dircache = {"0": {"docs": "1", "top.txt": "5", "d": "6"}, "1": {"gophermap.bak": "2", "a.txt": "3", "gophermaps": "4"},
+                    "2": "docs/gophermap.bak", "3": "docs/a.txt", "4": {}, "5": "top.txt", "6": {"e": "7"}, "7": {"f.txt": "8"}, "8": "d/e/f.txt"}
+        members = {"": "0", "docs": "1", "docs/gophermap.bak": "2", "docs/a.txt": "3", "docs/gophermaps": "4", "top.txt": "5", "d": "6", "d/e": "7", "d/e/f.txt": "8"}
+        missing = ["docs/gophermap", "docs/a", "nodir/x", "top.txt/x", "d/e/g.txt", "zzz", "Docs/a.txt", "docs/A.TXT"]
+        param = gi.params[1] if len(gi.params) > 1 else "fspath"
+        histories = [set(), {"docs/gophermap"}, {"docs/a", "d/e/g.txt", "top"}, {"nodir"}]
+        problems = []
+        n = 0
+        for inv in histories:
+            for path, want in list(members.items()) + [(m_, None) for m_ in missing]:
+                facts = {"self.dircache": Const(dircache), "self.entrycache": Const({}), "self.invalid_paths": Const(set(inv))}
+                w = Walker(prog, ctx.resolver, exact_loops=True, unroll=10)
+                outs = set()
+                try:
+                    for p in w.run(gi, S, env={param: Const(path)}, facts=dict(facts)):
+                        if p.kind == "raise":
+                            outs.add(("raise", str(p.value).split(".")[-1]))
+                        elif p.kind == "return" and p.value.kind == "const":
+                            outs.add(("inode", p.value.value))
+                        else:
+                            outs.add(("?", p.kind))
+                except Exception:
+                    outs = {("?", "analysis")}
+                n += 1
+                exp = {("inode", want)} if want is not None else {("raise", "KeyError")}
+                if outs != exp:
+                    if any(k == "?" for k, _ in outs):
+                        problems.append(f"the lookup of {path!r} is not determined by code the analysis understands")
+                    elif want is not None:
+                        problems.append(f"member {path!r} is not found (result {sorted(outs)}) after failed lookups of {sorted(inv)}: "
+                                        "browsing the archive hides an entry that the extracted tree shows")
+                    else:
+                        problems.append(f"{path!r} is not a member but the lookup gives {sorted(outs)} instead of KeyError")
+        rep.add("R16g", f"{gi.qualname}: members found, non-members refused, independent of earlier lookups [{n} lookups]", not problems, ctx.where(gi),
+                "; ".join(sorted(set(problems))[:3]), key=f"R16g|{S.qualname}")
     # R16d
     zh = ctx.cls("handlers.ZIP.ZIPHandler")
     gh = ctx.func("handlers.HandlerMultiplexer.getHandler")
